@@ -102,7 +102,7 @@ def expected(shape, exp, conc):
             "law": "FullLawCitation", "journal": "FullJournalCitation"}[shape["form"]]
     s = off[exp["spanFrom"]][0]
     e = off[exp["spanTo"]][1]
-    ex = {"kind": kind, "s": s, "e": e,
+    ex = {"kind": kind, "s": s, "e": e, "e_upper": bool(conc.get("e_upper")), "pin_any": bool(conc.get("e_upper")),
           "pin": w["pin_text"] if exp["pin"] != "-" else "",
           "year": str(conc["year"]) if exp["year"] != "-" else "",
           "court": conc["court_ids"] if exp["court"] != "-" else [],
